@@ -374,6 +374,9 @@ func enumerateJar(r *core.Run, depth int, alpha []jop) {
 		total *= n
 	}
 	ops := make([]jop, depth)
+	gated := map[string]int{}
+	done := 0
+	const gateQuota = 12
 	for h := 0; h < total; h++ {
 		if !r.Shard(h) {
 			continue
@@ -392,9 +395,17 @@ func enumerateJar(r *core.Run, depth int, alpha []jop) {
 		l.Add("jar_histories", 1)
 		l.Add("jar_transitions", int64(depth))
 		if len(sigs) > 0 {
-			// replay gate: the same history must fail the same way twice more, from flushed pools
+			// replay gate: the same history must fail the same way twice more, from flushed pools. The gate costs six
+			// collections; once a set of signatures has passed it gateQuota times in this worker, further histories that
+			// fail with exactly that set are judged directly (reported without the gate: never fewer reports).
 			sort.Strings(sigs)
-			for k := 0; k < 2; k++ {
+			set := strings.Join(sigs, "|")
+			if gated[set] >= gateQuota {
+				l.Add("jar_judged_without_gate", 1)
+				runJarHistory(ops, l, true)
+				sigs = nil
+			}
+			for k := 0; k < 2 && sigs != nil; k++ {
 				runtime.GC()
 				runtime.GC()
 				s2 := runJarHistory(ops, l, false)
@@ -406,12 +417,13 @@ func enumerateJar(r *core.Run, depth int, alpha []jop) {
 				}
 			}
 			if sigs != nil {
+				gated[set]++
 				runtime.GC()
 				runtime.GC()
 				runJarHistory(ops, l, true)
 			}
 		}
-		if h%20000 == 0 {
+		if done++; done%4000 == 0 {
 			runtime.GC()
 			runtime.GC()
 			if r.Expired() {
